@@ -480,7 +480,10 @@ def run_check(pid, tier, replay=None):
             # a third of the scenarios: blocking reports hand over one buffer per source by pointer, rewritten in place
             # (only with a single watching source: dials keeps the pointer it was given, so with a second source a re-stack could
             # read the buffer while it is being rewritten - that would be the source's mistake, not the library's)
-            s["reusebuf"] = (i + seed) % 3 == 0 and len(s.get("init") or []) == 1
+            # (and only where no reporter context is cancelled: a reporter that gave up on a blocking report cannot know whether
+            # the monitor still holds the buffer, rewriting it for the next report would again be the source's mistake - seen
+            # once as a strict-conformance divergence: the monitor composed the rewritten buffer of an abandoned report)
+            s["reusebuf"] = (i + seed) % 3 == 0 and len(s.get("init") or []) == 1 and not s.get("pcancel")
         events, crashes = run_scenarios(vh, scratch, scenarios, workers=12)
         violations = []
         for sc, stderr in crashes:
